@@ -21,6 +21,7 @@ converters, encryption) are covered by the fault enumeration of the harness only
 import PdfVerif.Lemmas.Lenient
 import PdfVerif.Lemmas.LenientCodec
 import PdfVerif.Lemmas.LenientWork
+import PdfVerif.Lemmas.LenientTree
 
 namespace PdfVerif.Props.C13
 open PdfVerif PdfVerif.Lenient
@@ -431,5 +432,43 @@ example : Filters.streamDecode id (.name [82, 76]) .absent [2, 65] = .ok [] := b
 example : Filters.lzwdecode [0x00, 0x80] = .error .indexError := by decide
 example : Filters.lzwdecode [0x80, 0x0b, 0x60, 0x50, 0x22, 0x0c, 0x0c, 0x85, 0x01] = .ok [45, 45, 45, 45, 45, 65, 45, 45, 45, 66] := by
   decide +kernel
+
+/-! ## Round 6c — the number-tree walk (`data_structures.NumberTree._parse`)
+
+Model: `Model/LenientTree.lean` (`ntNode` = `NumberTree.__init__` + the leaf part of `_parse`, `ntParseFuel` /
+`ntKidsFuel` = the walk with the visited set handed through; nodes and `/Kids` arrays direct or by reference), tied to
+the real class by the `numtree` op of `drv_c13` on generated cyclic / shared / deep / ill-typed trees (items in order
+and visited set in insertion order must be equal). -/
+
+/-- For EVERY object graph, every start value, every fuel and both STRICT settings the walk yields the items, an error of
+the family (PDFTypeError / PDFValueError of the typed accessors), or the out-of-fuel outcome — never a builtin error.
+PARTIAL: what is missing is the proof that the depth fuel `resolveAllBudget g obj` of `numTree` always suffices
+(each reference followed is new — see `C13_numtree_visits_once` — and inside an object the walk descends through
+its nesting); the harness checks on every generated tree that the model never answers `E fuel` and that the
+implementation returns. -/
+theorem C13_family_numtree_partial (strict : Bool) (g : Graph) (fuel : Nat) (obj : Obj) :
+    match ntParseFuel strict g fuel obj [] with
+    | .ok _ => True
+    | .error e => e.isFamily = true ∨ e = .fuel := by
+  have h := ntParse_good C13_guards_present.1 C13_numtree_guard_present strict g fuel obj [] List.nodup_nil
+  cases hr : ntParseFuel strict g fuel obj [] with
+  | ok r => trivial
+  | error e => exact h.1 e hr
+
+/-- Every indirect node and every indirect `/Kids` array is entered at most once in the whole walk (siblings and
+cousins included): the visited set the walk returns is duplicate free, for every graph, start value and fuel. -/
+theorem C13_numtree_visits_once (strict : Bool) (g : Graph) (fuel : Nat) (obj : Obj)
+    (its : List (Obj × Obj)) (v : List Nat) (h : ntParseFuel strict g fuel obj [] = .ok (its, v)) : v.Nodup :=
+  ((ntParse_good C13_guards_present.1 C13_numtree_guard_present strict g fuel obj [] List.nodup_nil).2 its v h).1
+
+/-- Non-vacuity: the defect of fix 8f4f6ca — a node written directly into the Kids array object 5 that names 5 as its own
+`/Kids` — now ends with the array recorded once; a leaf behind a reference yields its item. -/
+example : ntParseFuel false [(5, .arr [.dict [("Kids", .ref 5)]])] 6 (.dict [("Kids", .ref 5)]) [] = .ok ([], [5]) := by
+  simp [ntParseFuel, ntKidsFuel, ntNode, ntList, ntItems, ntKidsRef, dictValue, listValue, resolve1, resolve1Fuel,
+    List.lookup, Gen.Lenient.numberTreeGuard, Gen.Lenient.resolve1Guard, bind, Except.bind, pure, Except.pure]
+example : ntParseFuel false [(2, .dict [("Nums", .arr [.int 4, .name "x"])])] 6 (.dict [("Kids", .arr [.ref 2, .ref 2])]) []
+    = .ok ([(.int 4, .name "x")], [2]) := by
+  simp [ntParseFuel, ntKidsFuel, ntNode, ntList, ntItems, ntKidsRef, dictValue, listValue, intValue, resolve1, resolve1Fuel,
+    List.lookup, Gen.Lenient.numberTreeGuard, Gen.Lenient.resolve1Guard, bind, Except.bind, pure, Except.pure]
 
 end PdfVerif.Props.C13
